@@ -27,6 +27,12 @@ where
     where
         I: IntoIterator<Item = Pixel<Self::Color>>,
     {
+        // Discard pixels outside of the display
+        let bounding_box = self.bounding_box();
+        let pixels = pixels
+            .into_iter()
+            .filter(|pixel| bounding_box.contains(pixel.0));
+
         for pixel in pixels {
             let x = pixel.0.x as u16;
             let y = pixel.0.y as u16;
@@ -43,6 +49,12 @@ where
         T: IntoIterator<Item = Pixel<Self::Color>>,
     {
         use crate::batch::DrawBatch;
+
+        // Discard pixels outside of the display
+        let bounding_box = self.bounding_box();
+        let item = item
+            .into_iter()
+            .filter(move |pixel| bounding_box.contains(pixel.0));
 
         self.draw_batch(item)
     }
